@@ -359,6 +359,10 @@ def gen_c14(rng: random.Random, tier: str) -> dict:
                 rng, max_nodes=rng.choice([6, 12, 25] + ([60] if big else [])),
                 max_depth=rng.randint(2, 4), max_fanout=rng.randint(2, 5),
                 id_base=10000 * ci + 1000 * k)
+            if rng.random() < 0.3:
+                # long-running steps: the bound on unblocking clients must
+                # not depend on how long surviving workers stay busy
+                tasktree.place_busy(rng, prog, rng.choice([1, 2, 3]))
             if rng.random() < 0.6:
                 script.append({'op': 'compile', 'prog': prog})
             else:
@@ -395,6 +399,8 @@ def gen_c14_sweep(frng: random.Random, tier: str, member: int) -> dict:
             frng, max_nodes=frng.choice([6, 12] + ([25] if big else [])),
             max_depth=frng.randint(2, 4), max_fanout=frng.randint(2, 4),
             id_base=10000 * ci)
+        if frng.random() < 0.3:
+            tasktree.place_busy(frng, prog, frng.choice([1, 2, 3]))
         if frng.random() < 0.6:
             script = [{'op': 'compile', 'prog': prog}]
         else:
